@@ -3,6 +3,7 @@
    settle_emissions). Which signer may draw down the fee / insurance vaults is an account-constraint
    fact and is pinned in C08 (withdraw_fees, withdraw_fees_permissionless, withdraw_insurance). *)
 Require Import Base Constants Fixed Curve Bank BankOps Risk TransferFee Handlers FixedLemmas BankLemmas HandlerLemmas.
+Require Import Panic AnchorTypes AnchorSem Gate AccountsTable HandlerFacts Spec AnchorSemLemmas AuthLemmas.
 Local Open Scope Z_scope.
 
 (* collecting bank fees: each bucket (insurance, group, program — in that order) gives up exactly the
@@ -43,6 +44,22 @@ Theorem C19_settle_pays_whole_tokens :
   n * ONE + bl_em bl' = bl_em bl1 /\ 0 <= bl_em bl' < ONE /\ 0 <= n <= U64_MAX.
 Proof. exact settle_emissions_exact. Qed.
 
+(* 'only to the account authority's chosen destination', over the GENERATED accounts table (regenerated from the source on
+   every run): lending_account_withdraw_emissions passes account validation only under the user signer rule with
+   allow_receivership = FALSE (the authority; the group admin only on a frozen account; never 'anyone while the account
+   is in receivership'), and the destination of permissionless payouts can be set only by the authority itself *)
+Theorem C19_emissions_withdrawn_only_by_authority :
+  forall pda opq e, In e accounts_table -> e_ix e = "lending_account_withdraw_emissions"%string ->
+  forall w b sg, accepts pda opq e w b sg = true ->
+  user_rule w b sg false "marginfi_account" "authority" "group".
+Proof. exact emission_withdraw_signer. Qed.
+
+Theorem C19_emissions_destination_set_only_by_authority :
+  forall pda opq e, In e accounts_table -> e_ix e = "marginfi_account_update_emissions_destination_account"%string ->
+  forall w b sg, accepts pda opq e w b sg = true ->
+  owner_rule w b sg "marginfi_account" "authority".
+Proof. exact emission_destination_owner. Qed.
+
 Definition ex_hb : hbank :=
   mkHB (mkBank ONE ONE (100 * ONE) 0 (5 * ONE / 2) (7 * ONE) (ONE / 3) 0 U64_MAX U64_MAX 0 6 0 0 0 0 0 1 (mkIR 0 0 0 0 0 0 0 0 0 [] 1))
        (mkRC ONE ONE ONE ONE 0 0 0 []) (fixed_feed ONE) 6 0 0 0 false 0 0 0.
@@ -55,3 +72,5 @@ Proof. vm_compute. reflexivity. Qed.
 Print Assumptions C19_collect_fees_exact.
 Print Assumptions C19_emissions_conserved_and_capped.
 Print Assumptions C19_settle_pays_whole_tokens.
+Print Assumptions C19_emissions_withdrawn_only_by_authority.
+Print Assumptions C19_emissions_destination_set_only_by_authority.
